@@ -117,4 +117,33 @@ theorem C04_set_search_with_state {A : Aut σ} (hg : GoodStore s den) (hr : Repr
         fun kv => (kv.1, A.run A.start kv.1)) :=
   Wrap.setSearchWithState_correct hg hr root hroot hA.1 hA.2 rs
 
+
+/-- END TO END at the wrapper level: `Map::search(aut)` / `Map::search_with_state(aut)` with any
+setters, over the BYTES of the file a map builder writes, for every contract-abiding automaton -/
+theorem C04_map_search_file (rows cols ty : Nat) (hty : ty < 2^64) (kvs : KV) (hs : SortedKV kvs)
+    (hv : ∀ kv ∈ kvs, kv.2 < 2^64) (hn : kvs.length < 2^64) :
+    ∃ s bytes, insertAll (BState.new rows cols) kvs = .ok s ∧ s.fileBytes ty = .ok bytes ∧
+      (bytes.length < 2^64 →
+        ∃ m, fstNew (Src.ofList bytes) = .ok m ∧
+          ∀ {σ : Type} (A : Aut σ), Contract A → ∀ rs : RangeSpec, ∃ N, ∀ fuel, N ≤ fuel →
+            Wrap.mapSearch (byteAccess 3 (Src.ofList bytes)) A m.rootAddr rs fuel =
+              some (kvs.filter fun kv => lowerOK rs.min kv.1 && upperOK rs.max kv.1 && A.accepts kv.1) ∧
+            Wrap.mapSearchWithState (byteAccess 3 (Src.ofList bytes)) A m.rootAddr rs fuel =
+              some ((kvs.filter fun kv => lowerOK rs.min kv.1 && upperOK rs.max kv.1 && A.accepts kv.1).map
+                fun kv => (kv.1, kv.2, A.run A.start kv.1))) := by
+  obtain ⟨s, bytes, e1, e2, h⟩ := C04_file rows cols ty hty kvs hs hv hn
+  refine ⟨s, bytes, e1, e2, fun hsz => ?_⟩
+  obtain ⟨m, hm, hall⟩ := h hsz
+  refine ⟨m, hm, fun A hA rs => ?_⟩
+  obtain ⟨s0, h0, N, hN⟩ := hall A hA.noEof hA.canSound rs.min rs.max
+  refine ⟨N, fun fuel hf => ?_⟩
+  have hq : Wrap.rawQuery (byteAccess 3 (Src.ofList bytes)) A m.rootAddr rs fuel =
+      some ((kvs.filter fun kv => lowerOK rs.min kv.1 && upperOK rs.max kv.1 && A.accepts kv.1).map
+        fun kv => (kv.1, kv.2, A.run A.start kv.1)) := by
+    simp only [Wrap.rawQuery, h0, hN fuel hf]
+  constructor
+  · simp only [Wrap.mapSearch, hq, Option.map_some, Wrap.mapStream_eq]
+    exact congrArg some (Wrap.rawStream_triples _ (fun k => A.run A.start k))
+  · simp only [Wrap.mapSearchWithState, hq, Option.map_some, Wrap.mapStreamWithState_eq]
+
 end Fst.Props
